@@ -40,7 +40,25 @@ def sig_null_output(run, issue, ev):
     return any(o.get("a") == "NULL" for e in _entries(ev) for t in e.get("txs", []) for o in t.get("to", []))
 
 
+def sig_spr_id_unbound(run, issue, ev):
+    sprs = (ev or {}).get("in", {}).get("spr", {}).get("sprs", [])
+    h = (ev or {}).get("h", 0)
+    return h >= sched_of(run).get("SprSig", 0) and any(x.get("valid") and x.get("signer") and x.get("signer") != x.get("staker") for x in sprs)
+
+
+def sig_band_skip(run, issue, ev):
+    sch = sched_of(run)
+    h = (ev or {}).get("h", 0)
+    i = (ev or {}).get("in", {})
+    o = (ev or {}).get("obs", {})
+    return (sch.get("V20", 0) <= h < sch.get("V202", 0) and i.get("opr", {}).get("winners") and i.get("spr", {}).get("present")
+            and not o.get("rated") and i["opr"].get("rates") != i["spr"].get("rates"))
+
+
 SIGS = {
+    "C11-band-error-skips-block": sig_band_skip, "C13-band-error-skips-block": sig_band_skip,
+    "C04-band-error-skips-block": sig_band_skip, "C12-band-error-skips-block": sig_band_skip,
+    "C11-spr-id-unbound": sig_spr_id_unbound,
     "C05-rcde-recovery-byte": sig_recbyte,
     "C04-null-output-pre-202": sig_null_output,
 }
